@@ -259,3 +259,15 @@ impl nom::InputLength for Token {
         1
     }
 }
+
+#[cfg(rigetti_quil_rs_verif)]
+impl<'a> TokenWithLocation<'a> {
+    /// Verification hook (add-only): a token placed at the given (dummy) source location, so that
+    /// the token-level parsers can be driven with arbitrary token sequences.
+    pub(crate) fn verif_new(token: Token, original_input: LexInput<'a>) -> Self {
+        Self {
+            token,
+            original_input,
+        }
+    }
+}
